@@ -458,6 +458,11 @@ def random_req(rng, pd, q):
                     [rat(Fraction(rng.randint(-24, 24), 8)) for _ in range(3)] for _ in range(n)]
         r["forces"] = forces(rng.randint(0, 3))
         r["forcesInc"] = forces(rng.randint(0 if r["forces"] else 1, 3))
+        if rng.random() < 0.5:            # revisit an earlier load point after another one
+            allf = r["forces"] + r["forcesInc"]
+            src = rng.choice(allf)
+            again = [src[0], src[1]] + [rat(Fraction(rng.randint(-24, 24), 8)) for _ in range(3)]
+            (r["forcesInc"] if rng.random() < 0.5 else r["forces"]).append(again)
         r["inc"] = rat(Fraction(rng.randint(1, 16), 8)) if q == "fext" else rat(1)
         r["route"] = rng.randint(0, 5)
         if q == "fext" and rng.random() < 0.3:
